@@ -88,3 +88,120 @@ Theorem C08_source_info_pipeline :
     G_RetrieveAssertionInfo cfg now enc (Ok (Some r)) = PVal (res_some (retrieve_info cfg now (Ok r))).
 Proof. exact source_info_pipeline. Qed.
 Print Assumptions C08_source_info_pipeline.
+
+(* ---- layout invariance of what is signed: goxmldsig's canonicalisers as a function (Canon.v, corresponded byte for byte with
+        the real library by the DSIG stream under C02), for every tree ---- *)
+From V Require Import Escape Build Dsig Canon P_Canon.
+From Coq Require Import Permutation.
+
+(* (a) the without-comments algorithms give the same bytes with every comment, at any depth, removed (or added) *)
+Theorem C08_canonical_form_ignores_comments : forall a n,
+  keeps_comments a = false -> canon_model a (strip_comments n) = canon_model a n.
+Proof. exact canon_ignores_comments. Qed.
+Print Assumptions C08_canonical_form_ignores_comments.
+
+Theorem C08_canonical_form_same_modulo_comments : forall a n1 n2,
+  keeps_comments a = false -> strip_comments n1 = strip_comments n2 -> canon_model a n1 = canon_model a n2.
+Proof. exact canon_same_modulo_comments. Qed.
+Print Assumptions C08_canonical_form_same_modulo_comments.
+
+(* (c) permuting the attributes of any number of elements does not change the canonical bytes, PROVIDED SortedAttrs.Less
+   can tell the attributes of each element apart ([all_sort_total]: pairwise distinct qualified names -- which well-formed XML
+   guarantees -- and no two prefixed attributes with the same local name, see C08_sort_premise_characterised).
+   PARTIAL as to the algorithms: the inclusive ones (c14n 1.0 REC, c14n 1.1, null); for the exclusive ones by correspondence. *)
+Theorem C08_canonical_form_ignores_attribute_order_partial : forall a n n',
+  inclusive a = true -> all_sort_total n = true -> attrs_permuted n n' -> canon_model a n' = canon_model a n.
+Proof. exact canon_ignores_attribute_order_inclusive. Qed.
+Print Assumptions C08_canonical_form_ignores_attribute_order_partial.
+
+Theorem C08_sorted_attributes_ignore_order : forall l l',
+  sort_total l = true -> Permutation l l' -> sort_attrs l' = sort_attrs l.
+Proof. exact sort_attrs_perm. Qed.
+Print Assumptions C08_sorted_attributes_ignore_order.
+
+Theorem C08_sort_premise_characterised : forall l,
+  sort_total l = true <->
+  NoDup l /\ forall x y, In x l -> In y l -> x <> y ->
+             at_key x <> at_key y \/ (at_space x <> at_space y /\ (prefixed x && prefixed y = false)).
+Proof. exact sort_total_iff. Qed.
+Print Assumptions C08_sort_premise_characterised.
+
+(* without that premise the statement is FALSE of goxmldsig (fidelity fact, checked against the real library by the fixed
+   cases of the canon set): two prefixed attributes with the same local name whose prefixes are declared on an ancestor keep
+   their document order under the inclusive algorithms (W3C C14N orders them by name-space URI) *)
+Theorem C08_canonical_form_ignores_attribute_order_namesakes_refuted :
+  exists n n', attrs_permuted n n' /\
+    canon_model (C11 false) n = Some "<r xmlns:a=""urn:x:a"" xmlns:b=""urn:x:b""><e b:k=""1"" a:k=""2""></e></r>" /\
+    canon_model (C11 false) n' = Some "<r xmlns:a=""urn:x:a"" xmlns:b=""urn:x:b""><e a:k=""2"" b:k=""1""></e></r>" /\
+    canon_model (CRec false) n <> canon_model (CRec false) n' /\
+    canon_model CNull n <> canon_model CNull n' /\
+    canon_model (CExc "" false) n = canon_model (CExc "" false) n'.
+Proof. exact canon_attribute_order_matters_for_namesakes. Qed.
+Print Assumptions C08_canonical_form_ignores_attribute_order_namesakes_refuted.
+
+(* (d) a reader recovers exactly the value from the canonical form: character data through end-of-line handling and
+   reference expansion, attribute values even through white-space normalisation (CR, and in attributes TAB and LF, are
+   written as character references); the escapers are injective; character data cut into several tokens (CDATA section,
+   removed comment) gives the bytes of the concatenation *)
+Theorem C08_canonical_text_recovers_value : forall s,
+  valid_xml_text s = true ->
+  canon_text_read (etree_escape CanonText s) = s /\ canon_attr_read (etree_escape CanonAttr s) = s.
+Proof. exact canon_values_recovered. Qed.
+Print Assumptions C08_canonical_text_recovers_value.
+
+Theorem C08_canonical_escape_injective : forall m s1 s2,
+  valid_xml_text s1 = true -> valid_xml_text s2 = true -> etree_escape m s1 = etree_escape m s2 -> s1 = s2.
+Proof. exact canon_escape_injective. Qed.
+Print Assumptions C08_canonical_escape_injective.
+
+Theorem C08_canonical_text_tokens_concatenate : forall a b rest,
+  valid_utf8 a = true ->
+  c14n_write_kids (Text a :: Text b :: rest) = c14n_write_kids (Text (a ++ b) :: rest).
+Proof. exact canon_text_tokens_concatenate. Qed.
+Print Assumptions C08_canonical_text_tokens_concatenate.
+
+(* (b) inclusive algorithms: re-declaring on the element at ANY path p a prefix (or the default name space) with the URI in
+   force there ([seen_at] = what canonicalPrepInner has recorded on the way down; [decl_redundant] = it repeats that) does
+   not change the canonical bytes, provided SortedAttrs.Less can tell that element's attributes apart *)
+From V Require Import P_DsigExact.
+Theorem C08_canonical_form_ignores_redundant_namespace_declarations : forall a root p sp tg pre d post kids s,
+  inclusive a = true ->
+  node_at root p = Some (Elem sp tg (pre ++ post) kids) -> seen_at [] root p = Some s ->
+  sort_total (pre ++ d :: post) = true -> is_ns_decl d = true -> decl_redundant s d = true ->
+  canon_model a (subst_at root p (Elem sp tg (pre ++ d :: post) kids)) = canon_model a root.
+Proof. exact canon_ignores_redundant_declaration. Qed.
+Print Assumptions C08_canonical_form_ignores_redundant_namespace_declarations.
+
+(* without that premise FALSE of goxmldsig (fidelity fact; both documents are fixed cases of the canon set): the redundant
+   declaration brings the prefix's URI into the slice SortedAttrs.Less reads and two namesake attributes change places *)
+Theorem C08_redundant_declaration_reorders_namesakes_refuted :
+  exists root p sp tg pre d post kids s,
+    node_at root p = Some (Elem sp tg (pre ++ post) kids) /\ seen_at [] root p = Some s /\
+    is_ns_decl d = true /\ decl_redundant s d = true /\
+    canon_model (C11 false) root = Some "<r xmlns:a=""urn:x:a"" xmlns:b=""urn:x:b""><e a:k=""2"" b:k=""1""></e></r>" /\
+    canon_model (C11 false) (subst_at root p (Elem sp tg (pre ++ d :: post) kids))
+      = Some "<r xmlns:a=""urn:x:a"" xmlns:b=""urn:x:b""><e b:k=""1"" a:k=""2""></e></r>".
+Proof. exact canon_redundant_declaration_reorders_namesakes. Qed.
+Print Assumptions C08_redundant_declaration_reorders_namesakes_refuted.
+
+(* (e) through the signature model Dsig.v with the canonicaliser oracle instantiated by canon_model.
+   PARTIAL.  Attribute order: for the usual transform list (enveloped-signature, then an inclusive canonicalisation) two
+   trees that differ by attribute order anywhere -- inside the Signature element too -- put the SAME bytes to the digest.
+   Gap: not proved that findSignature, given such trees, leaves such trees behind with the same signature path / reference. *)
+Theorem C08_digest_input_ignores_attribute_order_partial : forall root1 root2 p r t1 t2 c0 el1 a1,
+  ref_transforms r = [t1; t2] -> tr_alg t1 = alg_enveloped -> P_Dsig.c14n_of t2 = Some c0 -> inclusive c0 = true ->
+  all_sort_total root1 = true -> attrs_permuted root1 root2 ->
+  transform root1 p r = Ok (el1, a1) ->
+  exists el2, transform root2 p r = Ok (el2, a1) /\ canon_model a1 el2 = canon_model a1 el1.
+Proof. exact digest_input_ignores_attribute_order. Qed.
+Print Assumptions C08_digest_input_ignores_attribute_order_partial.
+
+(* PARTIAL.  Comments: if the elements the canonicaliser is asked about for two roots differ by comments only and the
+   reference names a without-comments algorithm, the digest input obs_ref_bytes is the same.  Gap: that two roots which
+   differ by comments outside the Signature element lead to such queries (the signature path shifts with the comments). *)
+Theorem C08_digest_input_ignores_comments_partial : forall reparse root1 root2 el1 el2 a,
+  obs_ref_query canon_model reparse root1 = Ok (el1, a) -> obs_ref_query canon_model reparse root2 = Ok (el2, a) ->
+  keeps_comments a = false -> strip_comments el1 = strip_comments el2 ->
+  obs_ref_bytes canon_model reparse root1 = obs_ref_bytes canon_model reparse root2.
+Proof. exact digest_input_ignores_comments. Qed.
+Print Assumptions C08_digest_input_ignores_comments_partial.
